@@ -51,6 +51,7 @@ func (a *LabelFormatPlanner) Process(ctx *shared.PlannerContext,
 			for _, fn := range labelFns {
 				entry.Labels = fn(entry.Labels)
 			}
+			entry.Fingerprint = fingerprint(entry.Labels)
 			return nil
 		},
 		OnAfterEntriesSlice: func(entries []shared.LogEntry, c chan []shared.LogEntry) error {
